@@ -150,6 +150,8 @@ focus(struct initparser *p)
 	case TYPESTRUCT:
 	case TYPEUNION:
 		p->sub->u.mem = p->sub->type->u.structunion.members;
+		if (!p->sub->u.mem)
+			error(&tok.loc, "cannot initialize members of a type that has none");
 		t = p->sub->u.mem->type;
 		break;
 	default:
